@@ -83,7 +83,8 @@ func (o *Operations) Update(
 
 		var f io.ReadSeekCloser
 		if file.Info.Mode().IsRegular() && replace && (file.Info.Size() > 0 || skipSizeCheck) {
-			// Get the compressed size for the header
+			// Get the compressed size for the header. Both passes have to hand the content to the pipeline in the same chunks
+			// (the length of i.e. an OpenPGP stream depends on them), so a source's `io.WriterTo` must not be used by only one of them
 			fileSizeCounter := &ioext.CounterWriter{
 				Writer: io.Discard,
 			}
@@ -115,12 +116,12 @@ func (o *Operations) Update(
 			}
 
 			if writer.DriveIsRegular {
-				if _, err := io.Copy(compressor, signer); err != nil {
+				if _, err := io.Copy(compressor, ioext.OnlyReader{Reader: signer}); err != nil {
 					return []*tar.Header{}, err
 				}
 			} else {
 				buf := make([]byte, config.MagneticTapeBlockSize*o.pipes.RecordSize)
-				if _, err := io.CopyBuffer(compressor, signer, buf); err != nil {
+				if _, err := io.CopyBuffer(compressor, ioext.OnlyReader{Reader: signer}, buf); err != nil {
 					return []*tar.Header{}, err
 				}
 			}
@@ -222,12 +223,12 @@ func (o *Operations) Update(
 			}
 
 			if writer.DriveIsRegular {
-				if _, err := io.Copy(compressor, f); err != nil {
+				if _, err := io.Copy(compressor, ioext.OnlyReader{Reader: f}); err != nil {
 					return []*tar.Header{}, err
 				}
 			} else {
 				buf := make([]byte, config.MagneticTapeBlockSize*o.pipes.RecordSize)
-				if _, err := io.CopyBuffer(compressor, f, buf); err != nil {
+				if _, err := io.CopyBuffer(compressor, ioext.OnlyReader{Reader: f}, buf); err != nil {
 					return []*tar.Header{}, err
 				}
 			}
